@@ -1,6 +1,6 @@
 (* C13 — the random byte stream is Salsa20/20 keystream under a per-request nonce.  Statements only (Salsa.v, Small.v, Prng.v). *)
 From Coq Require Import ZArith List Arith.
-From NTT Require Import Small Salsa Prng.
+From NTT Require Import Small Salsa Prng SalsaLoop.
 Import ListNotations.
 Local Open Scope Z_scope.
 
@@ -36,3 +36,9 @@ Print Assumptions C13_frame.
 (* the Gallina Salsa20 reproduces the specification's quarter-round vector and two requests of the repository's assembly *)
 Example C13_spec_vector : qr (1, 0, 0, 0) = (134250821, 128, 66048, 542113792).
 Proof. exact qr_vec2. Qed.
+
+(* the control structure of the assembly (four blocks per iteration while >= 256 bytes remain, then single blocks, the last partial
+   one through a stack buffer, block counter running on) yields exactly the specification-level stream, for every length *)
+Theorem C13_asm_loop_structure : forall key nonce len, asm_stream key nonce len = stream key nonce len.
+Proof. exact asm_stream_is_stream. Qed.
+Print Assumptions C13_asm_loop_structure.
